@@ -199,6 +199,25 @@ pub fn judge(case: &Case, l: &mut Local) {
                     }
                 }
             }
+            // second generation: the library's own output must be read back with the same envelope (a
+            // spelling it writes but cannot read shows only here)
+            match guard(|| (ops.parse_full)(&y)) {
+                Ok(Ok(m2)) => {
+                    if let Ok(y2) = guard(|| m2.to_mt_message())
+                        && let Some(bz) = tok::split_blocks(&y2)
+                    {
+                        for id in ["1", "2", "3", "5"] {
+                            let (a, b) = (get(&by, id), get(&bz, id));
+                            let same = if id == "3" || id == "5" { a.as_deref().and_then(tag_map) == b.as_deref().and_then(tag_map) && a.is_some() == b.is_some() } else { a == b };
+                            if !same {
+                                v(l, id, "second-generation-differs", &cause, format!("block {id} of the library's own output {:?} comes back as {:?} after being parsed and serialised again", a, b), case);
+                            }
+                        }
+                    }
+                }
+                Ok(Err(e)) => v(l, "envelope", "own-output-rejected", &crate::props::c02::err_class(&e), format!("the library rejects its own serialisation of an accepted message ({label}): {}", e.to_string().chars().take(100).collect::<String>()), case),
+                Err(_) => {}
+            }
             // block 4 must be the text block we wrote (boundary independence): compare token tags
             if let (Some(b4x), Some(b4y)) = (get(&bx, "4"), get(&by, "4")) {
                 let tx: Vec<String> = tok::tokenize(&b4x).fields.iter().map(|t| t.tag.clone()).collect();
